@@ -184,7 +184,7 @@ macro_rules! client_ctx {
 
 const STATUSES: [u16; 9] = [200, 201, 204, 400, 401, 403, 404, 500, 503];
 const BODY_KINDS: [&str; 8] = ["exact", "reprefixed", "empty", "non-xml", "truncated", "soap-fault", "html(probe)", "fault-with-2xx(probe)"];
-const TRANSPORTS: [&str; 5] = ["ok", "refused", "closed-before-head", "closed-mid-body", "ok-in-chunks"];
+const TRANSPORTS: [&str; 6] = ["ok", "refused", "closed-before-head", "closed-mid-body", "ok-in-chunks", "closed-after-complete-body-short-of-content-length"];
 const CREDS: [&str; 6] = ["absent", "user/secret", "empty strings", "colon in both", "non-ascii", "300-char password"];
 
 /// Credentials 0..5 are fixed; 6.. are generated from the value itself out of an alphabet of awkward characters
@@ -192,13 +192,21 @@ const CREDS: [&str; 6] = ["absent", "user/secret", "empty strings", "colon in bo
 const N_CREDS: u64 = 6 + 64;
 fn creds_of(k: u64) -> Option<(String, String)> {
     if k >= 6 {
-        const ALPHA: [&str; 12] = ["a", "Z", "7", ":", " ", "\u{e9}", "%", "@", "\"", "\\", "\t", "\u{4e16}"];
+        const ALPHA: [&str; 14] = ["a", "Z", "7", ":", " ", "\u{e9}", "%", "@", "\"", "\\", "\t", "\u{4e16}", "\r", "\n"];
         let mut st = k.wrapping_mul(0x9e37_79b9_7f4a_7c15);
         let mut gen = |max: u64| {
             let n = simkernel::splitmix64(&mut st) % (max + 1);
-            (0..n).map(|_| ALPHA[(simkernel::splitmix64(&mut st) % 12) as usize]).collect::<String>()
+            (0..n).map(|_| ALPHA[(simkernel::splitmix64(&mut st) % 14) as usize]).collect::<String>()
         };
-        return Some((gen(5), gen(7)));
+        let (mut u, mut pw) = (gen(5), gen(7));
+        // line breaks and blanks at the very end (a secret read from a file)
+        match k % 8 {
+            5 => pw.push('\n'),
+            6 => u.push_str("\r\n"),
+            7 => pw.push(' '),
+            _ => {}
+        }
+        return Some((u, pw));
     }
     match k {
         0 => None,
@@ -228,7 +236,7 @@ struct CallSpec {
 }
 
 /// "every 4xx or 5xx status" / "2xx": codes beyond the nine listed ones (no 1xx/3xx; 205 has no body by definition)
-const WIDE_STATUSES: [u16; 32] = [202, 203, 206, 207, 208, 226, 402, 405, 406, 408, 409, 410, 411, 413, 415, 418, 422, 423, 425, 426, 428, 429, 431, 451, 501, 502, 504, 505, 507, 508, 510, 511];
+const WIDE_STATUSES: [u16; 32] = [202, 203, 206, 207, 226, 299, 402, 405, 406, 408, 409, 410, 411, 413, 415, 418, 422, 425, 426, 428, 429, 431, 451, 499, 501, 502, 504, 505, 507, 510, 511, 599];
 
 fn status_of(c: &CallSpec) -> u16 {
     if c.wide >= 32 {
@@ -253,7 +261,7 @@ fn decode_call(ch: &mut Chooser, n_ops: usize) -> CallSpec {
         mutmask: ch.choose("mutation_mask", 1024),
         status: ch.choose("status", 9) as usize,
         body_kind: ch.choose("body", 8) as usize,
-        transport: ch.choose("transport", 5) as usize,
+        transport: ch.choose("transport", 6) as usize,
         trunc: ch.choose("truncate_at", 1 << 20),
         splits: [ch.choose("split", 1 << 16), ch.choose("split", 1 << 16), ch.choose("split", 1 << 16)],
         latency: [ch.choose("latency_us", 5000), ch.choose("latency_us", 5000), ch.choose("latency_us", 5000)],
@@ -323,6 +331,12 @@ impl Instances {
                     mask = 1; // a "mutated" variant applies at least one mutation
                 }
                 for (i, m) in ms.iter().enumerate().take(10) {
+                    // the two "large request" mutations (index 8, 9) are expensive: in mixed masks they apply to
+                    // one mask in five; alone (a single-bit mask) always
+                    let large = m["position"].as_str().is_some_and(|p| p.contains("large-request")) || m["replace"].as_str().is_some_and(|r| r.len() > 20_000);
+                    if large && mask.count_ones() > 1 && mask % 5 != 0 {
+                        continue;
+                    }
                     if mask >> i & 1 == 1 {
                         if let (Some(f), Some(r)) = (m["find"].as_str(), m["replace"].as_str()) {
                             if s.contains(f) {
@@ -456,7 +470,8 @@ fn run_scenario(infos: &[ClientInfo], insts: &[Instances], sc: &Scenario, ch: &m
             0 | 4 => Transport::Ok,
             1 => Transport::Refused,
             2 => Transport::ClosedBeforeHead,
-            _ => Transport::ClosedMidBody,
+            3 => Transport::ClosedMidBody,
+            _ => Transport::ClosedAfterBody,
         };
         let splits: Vec<usize> = if c.transport == 4 && body.len() > 1 { c.splits.iter().map(|s| 1 + (*s as usize) % (body.len() - 1)).collect() } else { vec![] };
         scripts.push(Script {
@@ -840,7 +855,7 @@ fn build_tapes(infos: &[ClientInfo], property: &str, tier: &str, seed: u64) -> (
                 for variant in 0..2u64 {
                     for status in 0..9 {
                         for body in 0..8 {
-                            for transport in 0..5 {
+                            for transport in 0..6 {
                                 for creds in [0u64, 1, 3] {
                                     if !thorough && variant == 1 && (status + body + transport) % 2 == 1 {
                                         continue;
@@ -899,7 +914,7 @@ fn build_tapes(infos: &[ClientInfo], property: &str, tier: &str, seed: u64) -> (
         // C07: every mutation subset of every operation's instance, under a few server scripts
         for (ci, info) in infos.iter().enumerate() {
             for op in 0..info.ops.len() {
-                for mask in 0..(if thorough { 256 } else { 64 }) {
+                for mask in (0..(if thorough { 256 } else { 64 })).chain([256, 512, 768]) {
                     for (status, body, transport) in [(0usize, 0usize, 0usize), (7, 5, 0), (0, 0, 1), (0, 0, 4)] {
                         let mut c = base.clone();
                         c.op = op;
@@ -989,7 +1004,7 @@ fn build_tapes(infos: &[ClientInfo], property: &str, tier: &str, seed: u64) -> (
         }
         tapes.push(v);
     }
-    (tapes, json!({"enumerated_single_call_scripts": n_enum, "seeded_runs": n_seeded, "dimensions": {"status": STATUSES, "further_statuses": WIDE_STATUSES, "body": BODY_KINDS, "transport": TRANSPORTS, "credentials": CREDS}}))
+    (tapes, json!({"enumerated_single_call_scripts": n_enum, "seeded_runs": n_seeded, "note_status": "599, 499, 299 are the class boundaries", "dimensions": {"status": STATUSES, "further_statuses": WIDE_STATUSES, "body": BODY_KINDS, "transport": TRANSPORTS, "credentials": CREDS}}))
 }
 
 fn main() {
@@ -1023,14 +1038,14 @@ fn main() {
         let mut out = Vec::new();
         for status in 0..9 {
             for body in 0..8 {
-                for transport in 0..5 {
+                for transport in 0..6 {
                     for creds in [0u64, 1] {
                         let mut c = base.clone();
                         c.status = status;
                         c.body_kind = body;
                         c.transport = transport;
                         let tape = encode_single(ci, creds, &c);
-                        let (facts, _, _) = run_isolated(&infos, &insts, &tape, "C16");
+                        let (facts, _, _) = run_inline(&infos, &insts, &tape, "C16"); // same thread: sim::requests() below
                         let call = &facts.calls_json[0];
                         let reqs = sim::requests();
                         out.push(json!({"status": STATUSES[status], "body_kind": BODY_KINDS[body], "transport": TRANSPORTS[transport], "credentials": creds_of(creds),
